@@ -608,3 +608,208 @@ Proof.
       eapply xeqv_trans; [apply xeqv_mask_resize|apply xeqv_set_bsize; exact Ht].
     + exists nw, nh, (xlayers t), ls. split; [reflexivity|]. split; [exact (xeqv_layers _ _ Ht)|]. split; [exact Hs|exact Hb].
 Qed.
+
+(* ================================================================================================================
+   stage 5: RotateLayer (whole `lines` vectors + swapped size) and the whole-layer scroll records *)
+Definition rot_swap (L : layer) (v : list line) : layer := with_lines (with_size L (l_h L) (l_w L)) v.
+
+Lemma rot_swap_leqv L1 L2 v : leqv L1 L2 -> leqv (rot_swap L1 v) (rot_swap L2 v).
+Proof.
+  intros [Hm _]. pose proof (meta_fields _ _ Hm) as (H1&H2&H3&H4&H5&H6&H7&H8&H9&H10&H11&H12).
+  split; [|intros; reflexivity]. unfold meta, rot_swap. cbn. congruence.
+Qed.
+Lemma rot_swap_back L v : rot_swap (rot_swap L v) (l_lines L) = L.
+Proof. destruct L; reflexivity. Qed.
+
+Lemma upd_nth_const {A} (f : A -> A) : forall l i a, nth_error l i = Some a -> upd_nth i (fun _ => f a) l = upd_nth i f l.
+Proof.
+  induction l as [|x l IH]; intros i a H; [reflexivity|]. destruct i; cbn in *; [injection H as ->; reflexivity|]. f_equal. eapply IH. exact H.
+Qed.
+
+Lemma xeqv_upd_xlayer a b i f g : xeqv a b -> (forall L1 L2, leqv L1 L2 -> leqv (f L1) (g L2)) ->
+  xeqv (with_xb a (upd_layer (xb a) i f)) (with_xb b (upd_layer (xb b) i g)).
+Proof. intros [H Hr] Hf. split; [exact (eqv_upd_layer _ _ i f g H Hf)|exact Hr]. Qed.
+
+Lemma xeqv_upd_xlayer_id a i f : (forall L, nth_error (xlayers a) i = Some L -> leqv (f L) L) -> xeqv (with_xb a (upd_layer (xb a) i f)) a.
+Proof. intro H. split; [exact (eqv_upd_layer_id (xb a) i f H)|exact (rest_eq_refl a)]. Qed.
+
+Lemma xupd_twice a i f g : with_xb (with_xb a (upd_layer (xb a) i g)) (upd_layer (xb (with_xb a (upd_layer (xb a) i g))) i f) =
+  with_xb a (upd_layer (xb a) i (fun L => f (g L))).
+Proof. cbn [xb with_xb]. rewrite upd_layer_twice. reflexivity. Qed.
+
+Lemma xeqv_has_layer t b i L : xeqv t b -> nth_error (xlayers b) i = Some L -> exists Lt, nth_error (xlayers t) i = Some Lt /\ leqv Lt L.
+Proof. intros [H _] Hn. exact (eqv_has_layer _ _ i L H Hn). Qed.
+
+Lemma xupd_const s i (f : layer -> layer) L : nth_error (xlayers s) i = Some L ->
+  with_xb s (upd_layer (xb s) i (fun _ => f L)) = with_xb s (upd_layer (xb s) i f).
+Proof. intro H. unfold upd_layer, with_layers. f_equal. f_equal. apply upd_nth_const. exact H. Qed.
+
+Definition P_rotate (o : xuop) (a b : xstate) : Prop :=
+  exists i new L, o = XRotate i (l_lines L) new /\ nth_error (xlayers a) i = Some L /\
+    xeqv b (with_xb a (upd_layer (xb a) i (fun L0 => rot_swap L0 new))).
+
+Lemma rotate_stable : xstable P_rotate.
+Proof.
+  intros o a b (i & new & L & -> & Hn & Hb). split; intros t Ht.
+  - pose proof (xeqv_trans _ _ _ Ht Hb) as Htb.
+    assert (Hnb : nth_error (xlayers (with_xb a (upd_layer (xb a) i (fun L0 => rot_swap L0 new)))) i = Some (rot_swap L new)).
+    { exact (nth_upd_layer (xb a) i (fun L0 => rot_swap L0 new) L Hn). }
+    destruct (xeqv_has_layer t _ i _ Htb Hnb) as (Lt & Hnt & _).
+    cbn [xop_undo]. rewrite Hnt. eexists. split; [reflexivity|].
+    match goal with |- xeqv ?x a => replace x with (with_xb t (upd_layer (xb t) i (fun L0 => rot_swap L0 (l_lines L))))
+      by (symmetry; exact (xupd_const t i (fun L0 => rot_swap L0 (l_lines L)) Lt Hnt)) end.
+    eapply xeqv_trans; [apply (xeqv_upd_xlayer _ _ i _ (fun L0 => rot_swap L0 (l_lines L)) Htb); intros; apply rot_swap_leqv; assumption|].
+    rewrite xupd_twice. apply xeqv_upd_xlayer_id. intros L' HL'. assert (L' = L) by (unfold xlayers in *; congruence). subst.
+    rewrite rot_swap_back. apply leqv_refl.
+  - destruct (xeqv_has_layer t _ i _ Ht Hn) as (Lt & Hnt & _).
+    cbn [xop_redo]. rewrite Hnt. eexists. split; [reflexivity|].
+    match goal with |- xeqv ?x b => replace x with (with_xb t (upd_layer (xb t) i (fun L0 => rot_swap L0 new)))
+      by (symmetry; exact (xupd_const t i (fun L0 => rot_swap L0 new) Lt Hnt)) end.
+    eapply xeqv_trans; [|apply xeqv_sym; exact Hb]. apply xeqv_upd_xlayer; [exact Ht|]. intros; apply rot_swap_leqv; assumption.
+Qed.
+
+(* --- whole-layer scroll: rotates the `height` rows of the layer, whatever rows are stored *)
+Lemma nth_error_rot_left {A} (l : list A) y : (y < length l)%nat ->
+  nth_error (rot_left l) y = if (S y <? length l)%nat then nth_error l (S y) else nth_error l 0.
+Proof.
+  intro H. unfold rot_left. destruct (S y <? length l)%nat eqn:E.
+  - apply Nat.ltb_lt in E. rewrite nth_error_app1 by (rewrite skipn_length; lia). rewrite nth_error_skipn. reflexivity.
+  - apply Nat.ltb_ge in E. rewrite nth_error_app2 by (rewrite skipn_length; lia). rewrite skipn_length.
+    replace (y - (length l - 1))%nat with 0%nat by lia. apply nth_error_firstn_lt. lia.
+Qed.
+
+Lemma nth_error_rot_right {A} (l : list A) y : (y < length l)%nat ->
+  nth_error (rot_right l) y = match y with O => nth_error l (length l - 1) | S y' => nth_error l y' end.
+Proof.
+  intro H. unfold rot_right. destruct y as [|y'].
+  - rewrite nth_error_app1 by (rewrite skipn_length; lia). rewrite nth_error_skipn. f_equal. lia.
+  - rewrite nth_error_app2 by (rewrite skipn_length; lia). rewrite skipn_length.
+    replace (S y' - (length l - (length l - 1)))%nat with y' by lia. apply nth_error_firstn_lt. lia.
+Qed.
+
+Lemma rot_left_length {A} (l : list A) : length (rot_left l) = length l.
+Proof. unfold rot_left. rewrite app_length, skipn_length, firstn_length. lia. Qed.
+Lemma rot_right_length {A} (l : list A) : length (rot_right l) = length l.
+Proof. unfold rot_right. rewrite app_length, skipn_length, firstn_length. lia. Qed.
+
+Lemma raw_resize_to lines n x y : raw (resize_to lines n []) x y = raw lines x y.
+Proof.
+  unfold resize_to. destruct (length lines <? n)%nat; [|reflexivity]. rewrite !raw_cell_at. unfold line in *.
+  destruct (lt_dec y (length lines)) as [H|H].
+  - rewrite nth_error_app1 by exact H. reflexivity.
+  - rewrite nth_error_app2 by lia. rewrite nth_error_repeat.
+    assert (nth_error lines y = None) as -> by (apply nth_error_None; lia).
+    destruct (_ <? _)%nat; [|reflexivity]. unfold cell_at. destruct x; reflexivity.
+Qed.
+Lemma resize_to_length {A} (l : list A) n d : (n <= length (resize_to l n d))%nat.
+Proof. unfold resize_to. destruct (length l <? n)%nat eqn:E; [apply Nat.ltb_lt in E; rewrite app_length, repeat_length; lia|apply Nat.ltb_ge in E; lia]. Qed.
+
+Definition hrows (L : layer) : nat := Z.to_nat (Z.max (l_h L) 0).
+
+(* rows below the layer height are left alone; inside, row y takes the place the rotation gives it *)
+Lemma scroll_rows_spec (rot : list line -> list line) (src : nat -> nat -> nat) L :
+  (forall l, length (rot l) = length l) ->
+  (forall l y, (y < length l)%nat -> nth_error (rot l) y = nth_error l (src (length l) y)) ->
+  (forall n y, (y < n)%nat -> (src n y < n)%nat) ->
+  let '(h, lines) := rows_of L in
+  forall x y, raw (rot (firstn h lines) ++ skipn h lines) x y = if (y <? h)%nat then raw (l_lines L) x (src h y) else raw (l_lines L) x y.
+Proof.
+  intros Hlen Hnth Hsrc. unfold rows_of. fold (hrows L). set (h := hrows L). set (lines := resize_to (l_lines L) h []).
+  intros x y. assert (Hl : (h <= length lines)%nat) by apply resize_to_length.
+  assert (Hf : length (firstn h lines) = h) by (rewrite firstn_length; lia).
+  rewrite <- !(raw_resize_to (l_lines L) h). fold lines. rewrite !raw_cell_at.
+  destruct (y <? h)%nat eqn:E.
+  - apply Nat.ltb_lt in E. rewrite nth_error_app1 by (rewrite Hlen, Hf; exact E). rewrite Hnth by (rewrite Hf; exact E). rewrite Hf.
+    rewrite nth_error_firstn_lt by (apply Hsrc; exact E). reflexivity.
+  - apply Nat.ltb_ge in E. rewrite nth_error_app2 by (rewrite Hlen, Hf; exact E). rewrite Hlen, Hf, nth_error_skipn.
+    replace (h + (y - h))%nat with y by lia. reflexivity.
+Qed.
+
+Definition src_up (n y : nat) : nat := if (S y <? n)%nat then S y else 0%nat.
+Definition src_down (n y : nat) : nat := match y with O => (n - 1)%nat | S y' => y' end.
+
+Lemma scroll_up_spec L : meta (l_scroll_up L) = meta L /\
+  forall x y, rawL (l_scroll_up L) x y = if (y <? hrows L)%nat then rawL L x (src_up (hrows L) y) else rawL L x y.
+Proof.
+  pose proof (scroll_rows_spec rot_left src_up L (@rot_left_length _)) as H. unfold l_scroll_up, rawL. unfold rows_of in *. fold (hrows L) in *.
+  split; [reflexivity|]. cbn [l_lines with_lines]. apply H.
+  - intros l y Hy. rewrite nth_error_rot_left by exact Hy. unfold src_up. destruct (S y <? length l)%nat; reflexivity.
+  - intros n y Hy. unfold src_up. destruct (S y <? n)%nat eqn:E; [apply Nat.ltb_lt in E; exact E|lia].
+Qed.
+
+Lemma scroll_down_spec L : meta (l_scroll_down L) = meta L /\
+  forall x y, rawL (l_scroll_down L) x y = if (y <? hrows L)%nat then rawL L x (src_down (hrows L) y) else rawL L x y.
+Proof.
+  pose proof (scroll_rows_spec rot_right src_down L (@rot_right_length _)) as H. unfold l_scroll_down, rawL. unfold rows_of in *. fold (hrows L) in *.
+  split; [reflexivity|]. cbn [l_lines with_lines]. apply H.
+  - intros l y Hy. rewrite nth_error_rot_right by exact Hy. unfold src_down. destruct y; reflexivity.
+  - intros n y Hy. unfold src_down. destruct y; lia.
+Qed.
+
+Lemma hrows_meta L1 L2 : meta L1 = meta L2 -> hrows L1 = hrows L2.
+Proof. intro H. apply meta_fields in H. destruct H as (_&_&_&_&_&_&_&_&_&_&Hh&_). unfold hrows. rewrite Hh. reflexivity. Qed.
+
+Lemma scroll_up_leqv L1 L2 : leqv L1 L2 -> leqv (l_scroll_up L1) (l_scroll_up L2).
+Proof.
+  intros [Hm Hr]. destruct (scroll_up_spec L1) as [M1 R1]. destruct (scroll_up_spec L2) as [M2 R2].
+  split; [congruence|]. intros x y. rewrite R1, R2, (hrows_meta _ _ Hm), !Hr. reflexivity.
+Qed.
+Lemma scroll_down_leqv L1 L2 : leqv L1 L2 -> leqv (l_scroll_down L1) (l_scroll_down L2).
+Proof.
+  intros [Hm Hr]. destruct (scroll_down_spec L1) as [M1 R1]. destruct (scroll_down_spec L2) as [M2 R2].
+  split; [congruence|]. intros x y. rewrite R1, R2, (hrows_meta _ _ Hm), !Hr. reflexivity.
+Qed.
+
+Lemma scroll_down_up L : leqv (l_scroll_down (l_scroll_up L)) L.
+Proof.
+  destruct (scroll_up_spec L) as [M1 R1]. destruct (scroll_down_spec (l_scroll_up L)) as [M2 R2].
+  split; [congruence|]. intros x y. rewrite R2, (hrows_meta _ _ M1). set (h := hrows L).
+  destruct (y <? h)%nat eqn:E; [|rewrite R1; fold h; rewrite E; reflexivity]. apply Nat.ltb_lt in E.
+  rewrite R1. fold h. unfold src_down, src_up. destruct y as [|y'].
+  - replace (h - 1 <? h)%nat with true by (symmetry; apply Nat.ltb_lt; lia).
+    replace (S (h - 1) <? h)%nat with false by (symmetry; apply Nat.ltb_ge; lia). reflexivity.
+  - replace (y' <? h)%nat with true by (symmetry; apply Nat.ltb_lt; lia).
+    replace (S y' <? h)%nat with true by (symmetry; apply Nat.ltb_lt; lia). reflexivity.
+Qed.
+
+Lemma scroll_up_down L : leqv (l_scroll_up (l_scroll_down L)) L.
+Proof.
+  destruct (scroll_down_spec L) as [M1 R1]. destruct (scroll_up_spec (l_scroll_down L)) as [M2 R2].
+  split; [congruence|]. intros x y. rewrite R2, (hrows_meta _ _ M1). set (h := hrows L).
+  destruct (y <? h)%nat eqn:E; [|rewrite R1; fold h; rewrite E; reflexivity]. apply Nat.ltb_lt in E.
+  rewrite R1. fold h. unfold src_down, src_up. destruct (S y <? h)%nat eqn:E2.
+  - rewrite E2. reflexivity.
+  - apply Nat.ltb_ge in E2. replace (0 <? h)%nat with true by (symmetry; apply Nat.ltb_lt; lia). f_equal. lia.
+Qed.
+
+Definition P_scroll (o : xuop) (a b : xstate) : Prop :=
+  exists i L, nth_error (xlayers a) i = Some L /\
+    ((o = XScrollUp i /\ xeqv b (with_xb a (upd_layer (xb a) i l_scroll_up))) \/
+     (o = XScrollDown i /\ xeqv b (with_xb a (upd_layer (xb a) i l_scroll_down)))).
+
+Lemma xon_layer_ok s i o f L : nth_error (xlayers s) i = Some L ->
+  xon_layer s i o (fun L => Ok (f L)) 1 = Ok (o, with_xb s (upd_layer (xb s) i f)).
+Proof.
+  intro H. unfold xon_layer. rewrite H. cbn [bind]. rewrite (xupd_const s i f L H). reflexivity.
+Qed.
+
+Lemma scroll_stable : xstable P_scroll.
+Proof.
+  intros o a b (i & L & Hn & [[-> Hb]|[-> Hb]]); split; intros t Ht.
+  - pose proof (xeqv_trans _ _ _ Ht Hb) as Htb.
+    destruct (xeqv_has_layer t _ i _ Htb (nth_upd_layer _ _ l_scroll_up _ Hn)) as (Lt & Hnt & _).
+    cbn [xop_undo]. rewrite (xon_layer_ok _ _ _ l_scroll_down _ Hnt). eexists. split; [reflexivity|].
+    eapply xeqv_trans; [apply (xeqv_upd_xlayer _ _ i _ l_scroll_down Htb); apply scroll_down_leqv|].
+    rewrite xupd_twice. apply xeqv_upd_xlayer_id. intros L' _. apply scroll_down_up.
+  - destruct (xeqv_has_layer t _ i _ Ht Hn) as (Lt & Hnt & _).
+    cbn [xop_redo]. rewrite (xon_layer_ok _ _ _ l_scroll_up _ Hnt). eexists. split; [reflexivity|].
+    eapply xeqv_trans; [|apply xeqv_sym; exact Hb]. apply xeqv_upd_xlayer; [exact Ht|apply scroll_up_leqv].
+  - pose proof (xeqv_trans _ _ _ Ht Hb) as Htb.
+    destruct (xeqv_has_layer t _ i _ Htb (nth_upd_layer _ _ l_scroll_down _ Hn)) as (Lt & Hnt & _).
+    cbn [xop_undo]. rewrite (xon_layer_ok _ _ _ l_scroll_up _ Hnt). eexists. split; [reflexivity|].
+    eapply xeqv_trans; [apply (xeqv_upd_xlayer _ _ i _ l_scroll_up Htb); apply scroll_up_leqv|].
+    rewrite xupd_twice. apply xeqv_upd_xlayer_id. intros L' _. apply scroll_up_down.
+  - destruct (xeqv_has_layer t _ i _ Ht Hn) as (Lt & Hnt & _).
+    cbn [xop_redo]. rewrite (xon_layer_ok _ _ _ l_scroll_down _ Hnt). eexists. split; [reflexivity|].
+    eapply xeqv_trans; [|apply xeqv_sym; exact Hb]. apply xeqv_upd_xlayer; [exact Ht|apply scroll_down_leqv].
+Qed.
